@@ -358,7 +358,99 @@ func streamFraming(e *Env, rule, rel string) {
 func c04Writer(e *Env) {
 	const rule = "C04.writer"
 	w, r := e.W, e.R
-	r.Explainf("C04.writer: in resp.chunkedBodyWriter, Write and Finalize write the header only under `!wroteHeader`, after SetContentLength(-1), and set wroteHeader on success; Finalize writes the terminating chunk (WriteChunk with a nil payload) and then the trailer, inside the Once.")
+	r.Explainf("C04.writer: in resp.chunkedBodyWriter every site that writes the response header (in Write, Finalize or a helper method of the type) runs only while a bool field of the writer is false — `if !c.G { … }` around it or `if c.G { return … }` before it — announces chunked framing first (SetContentLength(-1) earlier in the same function) and sets that field to true afterwards; Write and Finalize each reach such a site (directly or through a helper method) ; Finalize writes the terminating chunk (WriteChunk with a nil payload) and then the trailer.")
+	typ := w.Named("pkg/protocol/http1/resp", "chunkedBodyWriter")
+	if typ == nil {
+		r.Anchor(rule, "resp.chunkedBodyWriter")
+		return
+	}
+	// methods of the type
+	var methods []*core.FuncInfo
+	for _, fi := range w.AllDecls() {
+		if rn := recvNamed(fi.Obj); rn != nil && rn.Obj() == typ.Obj() && fi.Decl.Body != nil && !w.IsTestFile(fi.Decl.Pos()) {
+			methods = append(methods, fi)
+		}
+	}
+	isBoolFieldOfT := func(info *types.Info, x ast.Expr) *types.Var {
+		v := usedVar(info, x)
+		if v == nil || !v.IsField() {
+			return nil
+		}
+		if b, ok := v.Type().Underlying().(*types.Basic); !ok || b.Kind() != types.Bool {
+			return nil
+		}
+		st, _ := typ.Underlying().(*types.Struct)
+		for i := 0; st != nil && i < st.NumFields(); i++ {
+			if st.Field(i) == v {
+				return v
+			}
+		}
+		return nil
+	}
+	hasSite := map[*types.Func]bool{}
+	nSites := 0
+	for _, fi := range methods {
+		info := fi.Pkg.TypesInfo
+		fname := w.FuncName(fi.Obj)
+		par := parents(fi.Decl)
+		ord := 0
+		ast.Inspect(fi.Decl.Body, func(n ast.Node) bool {
+			call, ok := n.(*ast.CallExpr)
+			if !ok || !esp.Is(calleeOf(info, call), pkgResp, "", "WriteHeader") {
+				return true
+			}
+			ord++
+			nSites++
+			hasSite[fi.Obj] = true
+			key := fmt.Sprintf("%s:WriteHeader#%d", fname, ord)
+			var guard *types.Var
+			for _, cond := range enclosingThenConds(par, call) {
+				if u, ok := unparen(cond).(*ast.UnaryExpr); ok && u.Op == token.NOT {
+					if g := isBoolFieldOfT(info, u.X); g != nil {
+						guard = g
+					}
+				}
+			}
+			if guard == nil {
+				// `if c.G { return … }` as an earlier statement of the function body
+				for _, s := range fi.Decl.Body.List {
+					if s.Pos() >= call.Pos() {
+						break
+					}
+					if is, ok := s.(*ast.IfStmt); ok && is.Init == nil && is.Else == nil && len(is.Body.List) > 0 {
+						if _, isRet := is.Body.List[len(is.Body.List)-1].(*ast.ReturnStmt); isRet {
+							if g := isBoolFieldOfT(info, is.Cond); g != nil {
+								guard = g
+							}
+						}
+					}
+				}
+			}
+			announced, setAfter := false, false
+			ast.Inspect(fi.Decl.Body, func(m ast.Node) bool {
+				switch x := m.(type) {
+				case *ast.CallExpr:
+					if x.Pos() < call.Pos() && esp.Is(calleeOf(info, x), pkgProto, "ResponseHeader", "SetContentLength") && len(x.Args) == 1 {
+						if v, ok := constInt(info, x.Args[0]); ok && v == -1 {
+							announced = true
+						}
+					}
+				case *ast.AssignStmt:
+					if x.Pos() > call.End() && len(x.Lhs) == 1 && len(x.Rhs) == 1 && guard != nil && usedVar(info, x.Lhs[0]) == guard {
+						if id, ok := unparen(x.Rhs[0]).(*ast.Ident); ok && id.Name == "true" {
+							setAfter = true
+						}
+					}
+				}
+				return true
+			})
+			r.Check(guard != nil, rule, key+":header-once", w.Pos(call.Pos()), "header is written only while the writer's header-written flag is false", "WriteHeader is neither nested in `if !c.<flag>` nor preceded by `if c.<flag> { return }` for a bool field of the writer: a second Write emits a second header")
+			r.Check(setAfter, rule, key+":flag-set", w.Pos(call.Pos()), "the header-written flag is set after the header", "the guarding flag is not set to true after WriteHeader")
+			r.Check(announced, rule, key+":chunked-announced", w.Pos(call.Pos()), "SetContentLength(-1) precedes the header", "no SetContentLength(-1) before WriteHeader")
+			return true
+		})
+	}
+	r.Floor(rule, nSites, 1, "header-writing sites in chunkedBodyWriter methods")
 	for _, m := range []string{"Write", "Finalize"} {
 		fi := w.Func("pkg/protocol/http1/resp", "chunkedBodyWriter", m)
 		if fi == nil {
@@ -367,45 +459,12 @@ func c04Writer(e *Env) {
 		}
 		info := fi.Pkg.TypesInfo
 		fname := w.FuncName(fi.Obj)
-		wrote := w.Field("pkg/protocol/http1/resp", "chunkedBodyWriter", "wroteHeader")
-		par := parents(fi.Decl)
-		hdrCalls := 0
-		ast.Inspect(fi.Decl.Body, func(n ast.Node) bool {
-			call, ok := n.(*ast.CallExpr)
-			if !ok {
-				return true
-			}
-			f := calleeOf(info, call)
-			if esp.Is(f, pkgResp, "", "WriteHeader") {
-				hdrCalls++
-				guarded, announced := false, false
-				for _, cond := range enclosingThenConds(par, call) {
-					if u, ok := unparen(cond).(*ast.UnaryExpr); ok && u.Op == token.NOT && usedVar(info, u.X) == wrote {
-						guarded = true
-					}
-				}
-				// SetContentLength(-1) earlier in the same block
-				if blk := enclosing(par, call, func(n ast.Node) bool { _, ok := n.(*ast.BlockStmt); return ok }); blk != nil {
-					for _, s := range blk.(*ast.BlockStmt).List {
-						if s.Pos() >= call.Pos() {
-							break
-						}
-						ast.Inspect(s, func(m ast.Node) bool {
-							if c2, ok := m.(*ast.CallExpr); ok && esp.Is(calleeOf(info, c2), pkgProto, "ResponseHeader", "SetContentLength") && len(c2.Args) == 1 {
-								if v, ok := constInt(info, c2.Args[0]); ok && v == -1 {
-									announced = true
-								}
-							}
-							return true
-						})
-					}
-				}
-				r.Check(guarded, rule, fname+":header-once", w.Pos(call.Pos()), "header is written only while wroteHeader is false", "WriteHeader is not nested in `if !c.wroteHeader`")
-				r.Check(announced, rule, fname+":chunked-announced", w.Pos(call.Pos()), "SetContentLength(-1) precedes the header", "no SetContentLength(-1) before WriteHeader")
-			}
-			return true
-		})
-		r.Check(hdrCalls == 1, rule, fname+":one-header-site", w.Pos(fi.Decl.Pos()), "one WriteHeader site", fmt.Sprintf("%d WriteHeader sites", hdrCalls))
+		reaches := hasSite[fi.Obj]
+		for _, c := range funcsCallingIn(fi, func(f *types.Func) bool { return hasSite[f] }) {
+			_ = c
+			reaches = true
+		}
+		r.Check(reaches, rule, fname+":reaches-header-site", w.Pos(fi.Decl.Pos()), m+" writes the header (once) before any chunk", m+" neither writes the header nor calls a method of the writer that does")
 		if m == "Finalize" {
 			// order: WriteChunk(nil) then WriteTrailer
 			var posChunk, posTrailer token.Pos
